@@ -95,6 +95,19 @@ class Ctx:
         self.driver().reset()
         self._last_table = 0
         self.flows_seen = set()
+        self.cookie_owner = {}
+
+    def claim_cookie(self, cookie, tuple_):
+        """The connection table is keyed by the 32-bit cookie alone (known finding): a session whose cookie equals that of
+        another flow living in the same table would continue that flow's stream.  Checks that fill one table with
+        thousands of sessions (or work behind 66 000 pre-validated flows) must not mistake such a birthday collision for a
+        defect of the property they judge: returns False if the cookie already belongs to another tuple."""
+        co = self.__dict__.setdefault("cookie_owner", {})
+        o = co.setdefault(cookie, tuple_)
+        if o != tuple_:
+            self.stats["cookie_collisions_avoided"] += 1
+            return False
+        return True
 
     def fresh_flow(self, e, sp, dp, fixed=False):
         """A source port such that (client, server, sp, dp) has not been used since the last table reset: a second
@@ -122,6 +135,7 @@ class Ctx:
             d.reset()
             self._last_table = 0
             self.flows_seen = set()
+            self.cookie_owner = {}
         self.history = []
         self.record = record
 
